@@ -497,6 +497,8 @@ BodyFailures(req, h, bs, toks, drained) ==
      \* --- C03: a multipart body carries exactly the resolved ranges, in request order
      \/ id = "C03" /\ kind = "multi" /\ clean /\ rdom /\
            ~\E r \in readings : LET sh == ShapeOf(L, r) IN sh.k = "multi" /\ PHParts(toks) = sh.parts
+     \* --- C06: a multipart body of an honest entity is the promised one, not an aborted transfer
+     \/ id = "C06" /\ kind = "multi" /\ honest /\ bs.term = "err"
      \* --- C06: the whole multipart structure, and its announced length
      \* (without If-Range every part carries the entity's own headers; with a matching If-Range the
      \*  property leaves open whether it carries them or none -- but never anything else)
